@@ -95,7 +95,7 @@ def run(tier, seed, model):
     camp = common.Campaign()
     rng = random.Random(seed * 7919 + 2)
     n = 260 if tier == "quick" else 6000
-    batch = Batch(model)
+    batch = Batch(model, camp, "C02")
     for i in range(n):
         variant = rng.choice([0, 1, 1, 1])
         enc_focus = rng.choice([None, None, ["raw"], ["rre"], ["corre"], ["hextile"], ["zrle"], ["copyrect", "raw"]])
